@@ -125,6 +125,18 @@ def _impl(tier, seed, search):
         observe('display', f'trprint2(T{k_})', lambda T_: b.trprint2(T_, file=None), [Tn.copy()], sig='mutates:trprint2'); observe('display', f'trprint2(T{k_},rad)', lambda T_: b.trprint2(T_, file=None, unit='rad'), [Tn.copy()], sig='mutates:trprint2')
         Xn = SE2(Tn.copy(), check=False)
         observe('display', f'SE2.printline({k_})', lambda X_: X_.printline(file=None), [Xn], sig='mutates:SE2.printline'); observe('display', f'SE2.__str__({k_})', lambda X_: str(X_), [Xn], sig='mutates:SE2.__str__')
+    # text forms do not depend on what has been displayed before (no global state such as print options is left behind)
+    Xs1 = SE3(0.0002, 0, 3); Xm1 = SE3.Rx([0.1, 0.2, 0.3]); Q1 = Quaternion([0.0002, 1, 2, 3]); R1s = SO3.Rz(0.00012)
+    def texts(): return (repr(Xs1), str(Xs1), repr(Q1), str(Q1), repr(R1s), np.array2string(np.array([0.00012, 3.0])))
+    t_before = texts()
+    for disp_ in (lambda: repr(Xm1), lambda: str(Xm1), lambda: repr(SO3.Rx([0.1, 0.2])), lambda: repr(SE2([SE2(1, 2, 0.3), SE2()])), lambda: Xm1.printline(file=None), lambda: b.trprint(Xs1.A, file=None), lambda: str(UnitQuaternion.Rx([0.1, 0.2]))):
+        L.count('display-state')
+        try: disp_()
+        except Exception: pass
+        t_after = texts()
+        if t_after != t_before:
+            L.fail('nondeterministic:text-after-display', 'repr / str of an object differs after another object has been displayed (global state left behind)', dict(callable='repr/str'), observed=[a_ for a_, b_ in zip(t_after, t_before) if a_ != b_][:2], required=[b_ for a_, b_ in zip(t_after, t_before) if a_ != b_][:2])
+            break
     # interpolation between fixed pairs on opposite hemispheres (negative inner product), every entry point and option: operands untouched
     for k_, (qa_, qb_) in enumerate(((UnitQuaternion.Rx(0.3), UnitQuaternion.Rx(6.0)), (UnitQuaternion.RPY([0.2, -0.4, 3.0]), UnitQuaternion.RPY([-0.3, 0.5, -2.9])), (UnitQuaternion([0.6, 0.0, 0.8, 0.0]), UnitQuaternion([-0.6, 0.1, -0.79, 0.0])))):
         for sh_ in (True, False):
